@@ -1,6 +1,7 @@
 import TvCore.Props.C04
 import TvCore.Props.C04Socks
 import TvCore.Props.C04Mcast
+import TvCore.Props.C04Group
 #print axioms TV.C04.only_dropObj
 #print axioms TV.C04.only_dropAll
 #print axioms TV.C04.crash_frame
@@ -29,3 +30,6 @@ import TvCore.Props.C04Mcast
 #print axioms TV.C04.mkeeps_dropObj
 #print axioms TV.C04.crash_keeps_membership
 #print axioms TV.C04.bounce_keeps_membership
+#print axioms TV.C04.crash_keeps_down
+#print axioms TV.C04.crashAll_stops
+#print axioms TV.C04.crashAll_frame
